@@ -28,10 +28,11 @@ class Unsupported(Exception):
 class BodyGen:
     """consts: {name: value} symbols that will be defined outside the body (before or after it)."""
 
-    def __init__(self, rng, consts, max_depth=3):
+    def __init__(self, rng, consts, max_depth=3, base_known=True):
         self.r = rng
         self.consts = consts
         self.max_depth = max_depth
+        self.base_known = base_known      # '. = X' is a skip only once the link base is set
         self.feat = set()
 
     def lit(self, v):
@@ -223,7 +224,7 @@ class BodyGen:
                 return f".align {self.lit(r.choice([2, 4, 8, 16]))}"
             if k == 4:
                 return ".odd\n.byte 1"
-            if k == 5:
+            if k == 5 and self.base_known:
                 return f". = . + {self.lit(r.choice([0, 2, 4, 10]))}"
             self.feat.add("bad-octal")
             return f".word {r.choice(['8', '19', '78'])} + ."
@@ -331,7 +332,7 @@ class RepeatCase:
             self.consts[name] = r.choice(vals)
         self.before = [n for n in ["a", "b", "cc", "n"] if r.random() < 0.6]
         self.after = [n for n in self.consts if n not in self.before]
-        g = BodyGen(r, self.consts, max_depth=3)
+        g = BodyGen(r, self.consts, max_depth=3, base_known=(self.base_mode == "first"))
         self.body = g.body(1, 4)
         self.count_text, self.n = g.count()
         if n_override is not None:
